@@ -33,13 +33,21 @@ def _alarm(sig, frm):
     raise _Timeout()
 
 
-def fullmatch(p, s, secs=2):
+_SLOW = set()      # patterns on which CPython's backtracking matcher already ran out of time once: not asked again
+
+
+def fullmatch(p, s, secs=0.5):
+    if p in _SLOW:
+        raise _Timeout()
     old = signal.signal(signal.SIGALRM, _alarm)
-    signal.alarm(secs)
+    signal.setitimer(signal.ITIMER_REAL, secs)
     try:
         return re.fullmatch(p, s) is not None
+    except _Timeout:
+        _SLOW.add(p)
+        raise
     finally:
-        signal.alarm(0)
+        signal.setitimer(signal.ITIMER_REAL, 0)
         signal.signal(signal.SIGALRM, old)
 
 
@@ -108,9 +116,15 @@ def run(ctx):
                     pats.append((q, u))
             except Exception:
                 pass
+    # directed patterns first (they get the full sweep over every candidate of every choice)
+    pats = [(p, None) for p in (r"a.b", r"^.{3}$", r"(.|x)y", r"[^a].", r"\w.\d", r"^id=.;$", r".+?-.*", r"[^\d\w]", r"[a-c.]z", r"(?:.a){2}",
+                                r"\.", r"[^.]")] + pats
     reqs, exp, info = [], [], []
     for p, unsup in pats:
-        for pol in ("lo", "hi", "alt", "alt2", "rnd", "cmax", "cmin"):
+        pols = ["lo", "hi", "alt", "alt2", "rnd", "cmax", "cmin"]
+        if len(pats) and (p, unsup) in pats[:ctx.n(12, 60)]:
+            pols += ["idx:%d" % k for k in range(0, 128, 1)]       # every candidate of every choice, for the first patterns
+        for pol in pols:
             (k, v), log = generate(p, SR.make_policy(pol, ctx.rnd))
             ndraws = len(log)
             ctx.case((p, pol), ndraws > 0)
